@@ -145,7 +145,7 @@ HINT0 = r'''
 HINT = r'''proof {
             assert(index as int == g_index && peers as int == g_peers);
             lemma_chunk(rng_n(g_lo, g_hi), g_peers, g_index);
-            assert(n as int == rng_n(g_lo, g_hi));
+            assert(@{n} as int == rng_n(g_lo, g_hi));
         }
         '''
 HINT2 = r'''proof {
@@ -162,6 +162,7 @@ def build(x):
     pieces = [S.sat_add('i64'), S.sat_add('i128'), S.try_from('i64', 'u64')] + [PRELUDE]
     blk = x.impl_block(F, '=Range<u64>', 'IntoParallelSource')
     blk.insert_at_body_start(HINT0)
+    blk.bind('n', r'let chunk_size(?:\s*:\s*\w+)? = \((\w+)\.saturating_add')
     blk.insert_before('let chunk_size', HINT)
     blk.insert_before('let start', HINT2)
     blk.insert_after('type Iter = Range<u64>;', spec_fns('u64'))
@@ -169,6 +170,7 @@ def build(x):
     for t in INSTANCES:
         fr = x.macro_instance(F, 'impl_into_parallel_source_range', {'$t': t}, f'Range<{t}>')
         fr.insert_at_body_start(HINT0)
+        fr.bind('n', r'let chunk_size(?:\s*:\s*\w+)? = \((\w+)\.saturating_add')
         fr.insert_before('let chunk_size', HINT)
         fr.insert_before('let start', HINT2)
         fr.insert_after(f'type Iter = Range<{t}>;', spec_fns(t))
